@@ -3110,18 +3110,24 @@ func (o *OperandOrDeferredTransfer) Decode(decoder *Decoder) error {
 	isDeferredTransfer := firstByte == 1
 	if isOperand {
 		cLog(Cyan, "OperandOrDeferredTransfer is Operand")
+		if o.Operand == nil {
+			o.Operand = &Operand{}
+		}
 		if err = o.Operand.Decode(decoder); err != nil {
 			return err
 		}
 		return nil
 	} else if isDeferredTransfer {
 		cLog(Cyan, "OperandOrDeferredTransfer is DeferredTransfer")
+		if o.DeferredTransfer == nil {
+			o.DeferredTransfer = &DeferredTransfer{}
+		}
 		if err = o.DeferredTransfer.Decode(decoder); err != nil {
 			return err
 		}
 		return nil
 	}
-	return nil
+	return fmt.Errorf("invalid OperandOrDeferredTransfer discriminator %d", firstByte)
 }
 
 func (e *ExtrinsicData) Decode(d *Decoder) error {
